@@ -9,6 +9,7 @@ import (
 	"google.golang.org/grpc/codes"
 	"google.golang.org/grpc/status"
 	"google.golang.org/protobuf/proto"
+	"google.golang.org/protobuf/types/known/fieldmaskpb"
 	"google.golang.org/protobuf/types/known/timestamppb"
 
 	"github.com/smart-core-os/sc-api/go/traits"
@@ -306,11 +307,33 @@ func (m *Model) UpdateMode(mode *traits.ElectricMode, opts ...resource.WriteOpti
 }
 
 func (m *Model) updateMode(mode *traits.ElectricMode, opts ...resource.WriteOption) (*traits.ElectricMode, error) {
+	// like createOrAddMode: if this update makes the mode normal, check that there isn't another normal mode
+	if mode.Normal && writesField(resource.ComputeWriteConfig(opts...).UpdateMask, "normal") {
+		if _, exists := m.findMode(mode.Id); exists {
+			if normal, ok := m.normalMode(); ok && normal.Id != mode.Id {
+				return nil, ErrNormalModeExists
+			}
+		}
+	}
+
 	msg, err := m.modes.Update(mode.Id, mode, opts...)
 	if err != nil {
 		return nil, err
 	}
 	return msg.(*traits.ElectricMode), nil
+}
+
+// writesField returns true if an update using mask writes the given top level field, a nil mask writes all fields.
+func writesField(mask *fieldmaskpb.FieldMask, field string) bool {
+	if mask == nil {
+		return true
+	}
+	for _, path := range mask.Paths {
+		if path == field {
+			return true
+		}
+	}
+	return false
 }
 
 // PullModes subscribes to changes to modes. Creation, modification or deletion of a mode on this device will send
